@@ -166,6 +166,15 @@ def run(ctx):
                               "deleter %d of make_quaint consists of %d delete-expression(s), %d explicit destructor call(s) and %d raw release(s): the object's destructor does not run exactly once "
                               "(storage released without ~T, or destroyed twice)" % (li + 1, nd, ndtor, nfree), b)
             continue
+        if not news and len(lambdas) == 1 and any(p0.get("type", "").rstrip().endswith("*") for p0 in f.params):
+            # a factory overload that wraps a pointer handed in: the object was created elsewhere, with a type this function never sees
+            ptrs = [p0 for p0 in f.params if p0.get("type", "").rstrip().endswith("*")]
+            ctx.bad("R18.2", f, "creates-what-it-owns:" + tag,
+                    "this make_quaint overload contains no new-expression: it adopts `%s %s` and pairs it with a deleter for the pointer's static type. The owner can no longer "
+                    "know the type the object was created with (a Base* to a Derived is destroyed as Base), nothing keeps the same object from being adopted twice, and a "
+                    "call with explicit type and one pointer argument - make_quaint<node>(parent), meant to create node(parent) - resolves to this overload (the non-variadic "
+                    "template is more specialised): no object is created and `parent` gains a second owner" % (ptrs[0].get("type"), ptrs[0].get("name")), f)
+            continue
         if len(news) != 1 or len(lambdas) != 1:
             ctx.broken("R18.2", f, "new/deleter pair:" + tag,
                        "expected exactly one new-expression and one deleter lambda, found %d/%d" % (len(news), len(lambdas)), f)
@@ -232,7 +241,11 @@ def run(ctx):
     resets = [f for f in qm if f.name == "reset"]
     if unique_idiom and not resets:
         ctx.ok("R18.3", QP, "reset-forwards", "no reset() body in quaint_ptr: the argument-less reset is the base's (w15), the pointer form is not exposed (w14)", "-")
+    from .common import delegating_overload
     for f in resets:
+        if delegating_overload(prog, f) is not None and delegating_overload(prog, f) in resets:
+            ctx.ok("R18.3", f, "reset-forwards:" + ",".join(p0.get("type") or "?" for p0 in f.params), "hands over to %s" % delegating_overload(prog, f).id[:80], f)
+            continue
         ok, path = cfg.must_happen_before_exit(
             f, lambda e: any(short(n.get("name") or "") == "reset" and (n.get("name") or "").startswith("std::unique_ptr")
                              for n in elem_calls(e)))
